@@ -4,6 +4,7 @@ package v1
 
 import (
 	"context"
+	"errors"
 	"time"
 
 	"github.com/attestantio/go-eth2-client/spec/bellatrix"
@@ -89,4 +90,93 @@ func VerifC17_V1ConcurrentLookups() {
 	left := vnd.Quiesce()
 	vnd.Assert(left == 0, "C17.v1.everything-returns")
 	vnd.Cover("C17.v1.overlap-explored")
+}
+
+// ---------------------------------------------------------------------------
+// decoding of legacy proposer entries
+
+var c16Doc struct {
+	text    string
+	fee     string
+	gas     string
+	builder int // 0 absent, 1 disabled, 2 enabled with one relay
+	broken  bool
+}
+
+// VerifStub_json_Unmarshal stands for encoding/json.Unmarshal on the legacy
+// proposer entry of VerifC16_V1Decode: it delivers what the real decoder
+// delivers for that document (the native replay runs the real decoder).
+func VerifStub_json_Unmarshal(data []byte, v any) error {
+	if string(data) != c16Doc.text {
+		return errors.New("document outside the catalogue")
+	}
+	if c16Doc.broken {
+		return errors.New("unexpected end of JSON input")
+	}
+	d, ok := v.(*proposerConfigJSON)
+	if !ok {
+		return errors.New("target outside the catalogue")
+	}
+	d.FeeRecipient, d.GasLimit = c16Doc.fee, c16Doc.gas
+	switch c16Doc.builder {
+	case 1:
+		d.Builder = &BuilderConfig{}
+	case 2:
+		d.Builder = &BuilderConfig{Enabled: true, Relays: []string{"https://r1.example"}}
+	}
+	return nil
+}
+
+// VerifC16_V1Decode: a legacy proposer entry of any shape (fee recipient
+// absent, empty, shorter or longer than 20 bytes, odd-length or non-hex; gas
+// limit absent, numeric, negative or text; builder absent, disabled or enabled;
+// a truncated document) is decoded or refused, and what was decoded serves a
+// settings lookup, without a crash.
+func VerifC16_V1Decode() {
+	fees := []string{"", "0x", "0x0102", "0x" + "ab01ab01ab01ab01ab01ab01ab01ab01ab01ab", "0x" + "ab01ab01ab01ab01ab01ab01ab01ab01ab01ab01", "ab01ab01ab01ab01ab01ab01ab01ab01ab01ab01",
+		"0x" + "ab01ab01ab01ab01ab01ab01ab01ab01ab01ab01ff", "0xabc", "0xzz01"}
+	c16Doc.fee = fees[vnd.Choose("fee-recipient", len(fees))]
+	c16Doc.gas = []string{"", "30000000", "-1", "lots", "18446744073709551616"}[vnd.Choose("gas-limit", 5)]
+	c16Doc.builder = vnd.Choose("builder", 3)
+	c16Doc.broken = vnd.Bool("truncated")
+	doc := `{`
+	sep := ""
+	if c16Doc.fee != "" {
+		doc += `"fee_recipient":"` + c16Doc.fee + `"`
+		sep = ","
+	}
+	if c16Doc.gas != "" {
+		doc += sep + `"gas_limit":"` + c16Doc.gas + `"`
+		sep = ","
+	}
+	switch c16Doc.builder {
+	case 1:
+		doc += sep + `"builder":{"enabled":false}`
+	case 2:
+		doc += sep + `"builder":{"enabled":true,"relays":["https://r1.example"]}`
+	}
+	if !c16Doc.broken {
+		doc += `}`
+	}
+	c16Doc.text = doc
+	pc := &ProposerConfig{}
+	err := pc.UnmarshalJSON([]byte(doc))
+	if err != nil {
+		vnd.Cover("C16.v1decode.refused")
+		return
+	}
+	vnd.Cover("C16.v1decode.accepted")
+	pubkey := phase0.BLSPubKey{7}
+	which := vnd.Bool("as-default-entry")
+	cfg := &ExecutionConfig{ProposerConfigs: map[phase0.BLSPubKey]*ProposerConfig{}}
+	if which {
+		cfg.DefaultConfig = pc
+	} else {
+		cfg.ProposerConfigs[pubkey] = pc
+	}
+	got, err := cfg.ProposerConfig(context.Background(), nil, pubkey, bellatrix.ExecutionAddress{0xfa}, 30000000)
+	vnd.Assert(err != nil || got != nil, "C16.v1decode.lookup-result-or-error")
+	if err == nil {
+		vnd.Assert(len(got.Relays) == map[int]int{0: 0, 1: 0, 2: 1}[c16Doc.builder], "C16.v1decode.relays-of-the-decoded-entry")
+	}
 }
